@@ -17,12 +17,13 @@ SimNext ==
     \/ \E w \in 1..2 : \E i \in Pending : Recv(i, Rnd({"result", "error"}), Rnd({"exact", "absent"}))
     \/ \E k \in OpenKinds : Open(k)
     \/ \E k \in {"cut", "user"} : Close(k)
+    \/ \E r \in Attempts : Attempt(r)
     \/ (Len(hist) > 6 /\ Destroy)
 SimSpec == Init /\ [][SimNext]_vars
 
 \* session histories (IqTrackerGenSess.cfg): every sequence of session openings / closings with one
 \* request sent at any position; no replies, no destruction
-SessBound == Bound /\ \A k \in 1..Len(hist) : hist[k].a \in {"Open", "Close", "Send"}
+SessBound == Bound /\ \A k \in 1..Len(hist) : hist[k].a \in {"Open", "Close", "Send", "Attempt"}
 
 \* all-paths set for the id rule (IqTrackerGenIds.cfg): one session, sends and replies only
 IdsBound == /\ Bound
